@@ -456,6 +456,11 @@ def main():
     ]
     print("C08: tier=%s seed=%d scenarios=%d %s classes_exercised=%d traces=%d events=%d model_states=%d wall=%.0fs" %
           (tier, seed, len(results), by_outcome, len(classes_exercised), len(traces), nev, states, time.time() - t0), flush=True)
+    # -- 5. what a restarting node rebuilds from its own directories (spec/Recover.tla, every bounded behaviour replayed through
+    # the real wal / snap packages and the node's own loadSnapshot + replayWAL): an entry of a completed save that is not
+    # recovered is an acknowledged write this node no longer has
+    import recoverlib
+    recoverlib.run(tier, v, "C08", cov)
     if not v.violations:
         if divergences:
             common.die_infra("conformance divergence without a reproduced property violation (see DIVERGENCE lines): the real nodes "
